@@ -8,7 +8,7 @@ canonical rendering of values/outcomes, and the ops
   minispec <sexpr-prog>  → `<outcome of specEval p>`
   minigo <sexpr-prog>    → Go text of `lowerProg p` (structural tie / debugging)
 
-Grammar of the s-expressions: see `harness/minigen/sexpr.go` (the writer) and `toExpr` below.
+Grammar of the s-expressions: see `harness/minigen/ast.go` (`SExp`, the writer) and `toExpr` below.
 Strings are `$<hex>` atoms (`$-` = empty), identifiers and numbers are bare atoms.
 -/
 import GopModel.Model.Lower
